@@ -426,6 +426,10 @@ def mov(_, instr, dst, src):
 
 
 def movq(_, instr, dst, src):
+    if src.size > 64:
+        # Only the low quadword of an XMM register is moved (the upper
+        # quadword of an XMM destination is cleared)
+        src = src[:64]
     src_final = (src.zeroExtend(dst.size)
                  if dst.size >= src.size else
                  src[:dst.size])
